@@ -58,17 +58,27 @@ def register(reg, prop="C10"):
         d = reg.sym_tensor(I, "eig", (n,))
         q = reg.sym_tensor(I, "Q", (n, n))
         I.ctx.ghost["eigh_d"] = d
+        I.ctx.ghost["eigh_q"] = q
         I.session.note("torch.linalg.eigh: assumed contract (ascending real eigenvalues d, unitary q, shapes)")
         return (d, q)
     reg.external["torch.linalg.eigh"] = eigh
+
+    def split_returns(I, name, env):
+        """result at a call site: abstract matrices with ghost handles when the argument is an
+        abstract tensor of the C10 factor-list model (contracts/mps_canon.py), else opaque"""
+        m = env.get("m")
+        if hasattr(m, "split_result"):
+            return m.split_result(I, env)
+        return Opaque(name)
 
     reg.add_contract(Contract(
         f"{UTILS}:split_matrix", property=prop,
         params={"m": m_tensor, "max_error": "real", "max_rank": "int", "orth_center_right": "bool",
                 "preserve_norm": "bool"},
-        requires=["max_error > 0", "max_rank >= 1"],
+        # (the matrix is non-empty: the verification domain of m_tensor, now owed by every caller)
+        requires=["max_error > 0", "max_rank >= 1", "m.shape[0] >= 1 and m.shape[1] >= 1"],
         raises={},
-        returns="opaque",
+        returns=split_returns,
         ensures=[
             # shapes: left (rows x k), right (k x cols), common bond k
             "result[0].shape[0] == m.shape[0] and result[1].shape[1] == m.shape[1]",
@@ -80,5 +90,30 @@ def register(reg, prop="C10"):
             # unless the cap binds, the discarded weight is within max_error^2
             "prefix(eig_d(), len(eig_d()) - result[0].shape[1]) <= max_error * max_error"
             " or result[0].shape[1] == max_rank",
+            # the spectrum that is cut is that of the Gram matrix on the side of the future centre
+            "len(eig_d()) == (m.shape[0] if orth_center_right else m.shape[1])",
         ],
     ))
+
+    # ---- split_matrix: which factor is the isometry -----------------------------------------------
+    # Verification-only variant: the factor on the side AWAY from the future centre is, entry by
+    # entry, the (adjoint of the) trailing columns of eigh's unitary q.  Orthonormality of those
+    # columns is A4 (q unitary); this clause pins down that the code really returns them, untouched
+    # by the preserve_norm rescaling.  The call-site face (split_returns / AT.split_result) tags
+    # result[1] right-orthonormal when orth_center_right is False and result[0] left-orthonormal
+    # when it is True on the strength of this clause.
+    reg.ghost_funcs["eig_q"] = lambda I: I.ctx.ghost["eigh_q"]
+    reg.add_contract(Contract(
+        f"{UTILS}:split_matrix", property=prop, label="split_matrix[isometry]",
+        params={"m": m_tensor, "max_error": "real", "max_rank": "int", "orth_center_right": "bool",
+                "preserve_norm": "bool"},
+        requires=["max_error > 0", "max_rank >= 1", "m.shape[0] >= 1 and m.shape[1] >= 1"],
+        raises={},
+        returns="opaque",
+        ensures=[
+            "forall(lambda i: forall(lambda j: implies(not orth_center_right, result[1][i, j] == "
+            "eig_q()[j, i + len(eig_d()) - result[0].shape[1]]), 0, m.shape[1]), 0, result[0].shape[1])",
+            "forall(lambda i: forall(lambda j: implies(orth_center_right, result[0][i, j] == "
+            "eig_q()[i, j + len(eig_d()) - result[0].shape[1]]), 0, result[0].shape[1]), 0, m.shape[0])",
+        ],
+    ), callsite=False)
